@@ -8,10 +8,14 @@ FFT_STUBS = ["RealFftPlanner::new -> zeroed planner", "plan_fft_forward/inverse 
 
 
 def H(mod, props, tier="quick", cap=420, sym="", bounds="", stubs=(), untagged="C03",
-      witness=False, thorough_cap=3600, mem=6):
+      witness=False, thorough_cap=3600, mem=6, props_thorough=()):
+    """props: properties whose quick AND thorough checks run this harness;
+    props_thorough: properties that additionally run it in their thorough tier only
+    (a harness whose scenario is owned by another property but whose monitors also
+    carry tags of these)."""
     return dict(mod=mod, props=list(props), tier=tier, cap=cap, sym=sym, bounds=bounds,
                 stubs=list(stubs), untagged=untagged, witness=witness, thorough_cap=thorough_cap,
-                mem=mem)
+                mem=mem, props_thorough=list(props_thorough), untagged_region="base")
 
 
 HARNESSES = {}
@@ -139,7 +143,7 @@ HARNESSES["c09_witness"] = H("c09", ["C09"], witness=True, cap=300, untagged="C0
 # ---------------------------------------------------------------- C10: reset == fresh (also C03: untagged checks after reset)
 _c10_sym_thorough = "pre-reset history: ratio change with every accepted f64 (D_full; FixedIn: k/32 grid), ramp bool, mask entry, optional pending relative ramp, a failed call; post-reset calls compared with a fresh twin"
 def _c10(name, bounds, sym, stubs=(), cap=600, witness=False, tier="quick"):
-    HARNESSES[name] = H("c10", ["C10", "C03"], cap=cap, sym=sym, bounds=bounds, stubs=stubs, untagged="C03", witness=witness, mem=(7 if stubs else 6), tier=tier)
+    HARNESSES[name] = H("c10", ["C10"], cap=cap, sym=sym, bounds=bounds, stubs=stubs, untagged="C10", witness=witness, mem=(7 if stubs else 6), tier=tier, props_thorough=["C03"])
 _conc = "none in the history (concrete: constant-folds); the solver decides every memory-safety/overflow check on the path and the equalities against the fresh twin"
 _c10("c10_ffo_lowered", "FastFixedOut<f64> Linear chunk 2, 1 ch, max_rel 2; history: ratio 0.5 stepped, 1 masked call; reset; getters + 3 calls vs fresh twin", _conc)
 _c10("c10_ffo_ramp_pending", "FastFixedOut<f32> Cubic chunk 2, 1 ch; history: ratio 1.75 ramped, 2 calls, pending relative ramp 1.25, failed call; reset; 3 calls vs twin", _conc)
@@ -205,7 +209,8 @@ _c17("c17_witness", "different chunk sizes: must FAIL (vacuity witness)", "none"
 
 # ---------------------------------------------------------------- C06 / C07 / C14 / C08(b): instants (index-signal observation)
 def _c06(name, props, bounds, sym, cap=900, witness=False, tier="quick"):
-    HARNESSES[name] = H("c06", props, cap=cap, sym=sym, bounds=bounds, untagged="C03", witness=witness, mem=6, tier=tier, thorough_cap=5400)
+    own = [p for p in props if p != "C03"]
+    HARNESSES[name] = H("c06", own, cap=cap, sym=sym, bounds=bounds, untagged=own[0], witness=witness, mem=6, tier=tier, thorough_cap=5400, props_thorough=["C03"])
 _c06("c06_ffo_change_grid", ["C06", "C03"], "FastFixedOut<f64> Linear chunk 3, max_rel 2; 1 concrete warm-up call at ratio 1; then setter + 1 call; every output is the evaluation instant",
      "new ratio: k/32 (D_grid); ramp bool")
 _c06("c06_sfo_change_grid", ["C06", "C03"], "SincFixedOut<f64>+Probe(8,2) Linear chunk 3, max_rel 2; 1 warm-up call; setter + 1 call; probe asserts every window lies on supplied line data",
@@ -215,7 +220,9 @@ _c06("c06_ffo_change", ["C06", "C03"], "FastFixedOut<f64> Linear chunk 3, max_re
 _c06("c06_sfo_change", ["C06", "C03"], "SincFixedOut<f64>+Probe(8,2) Linear chunk 3, max_rel 2; 2 warm-up calls; setter + 1 call; probe asserts every window lies on supplied line data",
      "new ratio: every accepted f64 (D_full); ramp bool", tier="thorough")
 _c06("c07_ffo_steady", ["C07", "C14", "C08", "C03"], "FastFixedOut<f64> Linear chunk 3: ratio set once then held; 2 calls from the fresh state: start position -4+(j+1)/r, uniform spacing across the chunk boundary, lag bound, output_delay",
-     "ratio: every accepted f64 in [0.5, 2] (D_full)")
+     "ratio: every accepted f64 in [0.5, 2] (D_full)", tier="thorough")
+_c06("c07_ffo_steady_grid", ["C07", "C14", "C08", "C03"], "FastFixedOut<f64> Linear chunk 4: ratio set once then held; 2 calls from the fresh state; frames inside the stream: start position -4+(j+1)/r, uniform spacing, lag bound, output_delay",
+     "ratio: k/32 accepted by the setter (D_grid)")
 _c06("c06_witness", ["C06", "C07", "C14", "C08"], "must FAIL (vacuity witness)", "none", witness=True)
 
 for _n, _it, _rg in (("c03_sfo_os1_cubic", "Cubic", "oversampling_1"), ("c03_sfo_os1_quadratic", "Quadratic", "oversampling_1"), ("c03_sfo_os1_linear", "Linear", "base")):
@@ -225,7 +232,7 @@ for _n, _it, _rg in (("c03_sfo_os1_cubic", "Cubic", "oversampling_1"), ("c03_sfo
 # ---------------------------------------------------------------- C03 / C04 / C07: synchronous resamplers (fft_step family)
 _FFT_ROWS = [('fto_2_3_6_2', 'FftFixedOut', '2, 3, 6, 2, 1', 3), ('fto_2_3_4_1', 'FftFixedOut', '2, 3, 4, 1, 1', 3), ('fto_3_2_3_1', 'FftFixedOut', '3, 2, 3, 1, 1', 3), ('fti_2_3_3_1', 'FftFixedIn', '2, 3, 3, 1, 1', 3), ('fti_2_3_1_1', 'FftFixedIn', '2, 3, 1, 1, 1', 4), ('fti_3_2_4_2', 'FftFixedIn', '3, 2, 4, 2, 1', 3), ('ftio_2_3_2', 'FftFixedInOut', '2, 3, 2, 1', 2), ('ftio_3_2_4', 'FftFixedInOut', '3, 2, 4, 1', 2)]
 for (_n, _typ, _args, _calls) in _FFT_ROWS:
-    HARNESSES["c07_" + _n] = H("c07f", ["C07", "C04", "C03"], cap=600, mem=7, stubs=FFT_STUBS,
+    HARNESSES["c07_" + _n] = H("c07f", ["C07", "C04"], cap=600, mem=7, stubs=FFT_STUBS, untagged="C04", props_thorough=["C03"],
         sym="caller buffer surplus lengths in [0,1] (no adjustable parameter exists on synchronous types)",
         bounds="%s::<f64>::new(%s), %d calls from the fresh state; index-signal input, sentinel output; stub FFT: block bookkeeping only" % (_typ, _args, _calls))
 HARNESSES["c07_ftio_sizing"] = H("c07f", ["C07", "C04"], cap=600, mem=7, stubs=FFT_STUBS, sym="none",
@@ -235,3 +242,32 @@ HARNESSES["c07_fft_witness"] = H("c07f", ["C07", "C04"], cap=300, mem=7, stubs=F
 for _n, _t in (("c03_ffo_three_changes", "FastFixedOut<f64> Linear"), ("c03_sfo_three_changes", "SincFixedOut<f64>+Probe(8,2) Linear")):
     HARNESSES[_n] = H("c03", ["C03", "C04"], cap=900, sym="third ratio change: k/32 (D_grid); ramp; surplus lengths",
         bounds="%s chunk 3, max_rel 2; concrete history: call at 1.0, setter 1.25 + call, setter 1.25 + call; then symbolic setter + call (every setter recomputes the input need); region [base]" % _t)
+
+
+# ---------------------------------------------------------------- C05: chunking / variant independence
+def _c05(name, bounds, sym, stubs=(), cap=900, witness=False, tier="quick"):
+    HARNESSES[name] = H("c05", ["C05"], cap=cap, sym=sym, bounds=bounds, stubs=stubs, untagged="C05", witness=witness, mem=(7 if stubs else 6), tier=tier, props_thorough=["C03"])
+_c05("c05_ffo_chunks_2_3", "FastFixedOut<f64> Nearest ratio 0.75: chunk 2 (3 calls) vs chunk 3 (2 calls) on the same stream; common prefix >= 6 frames bit-identical", "the signal: every finite f32 value per input sample (24 samples)")
+_c05("c05_sfo_chunks_1_3", "SincFixedOut<f64>+Probe(4,2) Nearest ratio 1.5: chunk 1 (6 calls) vs chunk 3 (2 calls); index-signal input", "none (concrete; the solver decides the safety checks and the equalities)")
+_c05("c05_ffi_vs_ffo", "FastFixedIn chunk 8 (2 calls) vs FastFixedOut chunk 5 (2 calls), Nearest ratio 1: common prefix >= 8 frames bit-identical", "the signal: every finite f32 value per input sample")
+_c05("c05_sfi_chunk_change", "SincFixedIn<f64>+Probe(4,2) Linear, max chunk 8, ratio 1: 2 calls, set_chunk_size(c), 2 calls; strict probe (windows on supplied line data) and uniform instants", "c in [1,8]")
+_c05("c05_sfo_chunk_change", "SincFixedOut<f64>+Probe(4,2) Linear, max chunk 4, ratio 1: 2 calls, set_chunk_size(c), 2 calls; strict probe and uniform instants", "c in [1,4]")
+_c05("c05_ftio_vs_fti", "FftFixedInOut(2,3,2) 2 calls vs FftFixedIn(2,3,4,2) 1 call: same FFT block 2/3; outputs bit-identical", "none (concrete)", stubs=FFT_STUBS)
+_c05("c05_ftio_vs_fto", "FftFixedInOut(2,3,2) 2 calls vs FftFixedOut(2,3,3,1) 2 calls: same FFT block; outputs bit-identical", "none (concrete)", stubs=FFT_STUBS)
+_c05("c05_witness", "different ratios: must FAIL (vacuity witness)", "none", witness=True)
+
+# ---------------------------------------------------------------- C14: output_delay
+def _c14(name, bounds, sym, cap=900, witness=False, tier="quick"):
+    HARNESSES[name] = H("c14", ["C14"], cap=cap, sym=sym, bounds=bounds, untagged="C14", witness=witness, mem=6, tier=tier)
+_c14("c14_ffo", "FastFixedOut<f64> Linear chunk 3: ratio set once, 2 calls; every frame inside the stream: |j - (tau*ratio + output_delay())| <= max(1,ratio)+1", "ratio: every accepted f64 (D_full)")
+_c14("c14_sfo", "SincFixedOut<f64>+Probe(8,2) Linear chunk 3: ratio set once, 2 calls; probe value = kernel window centre; region [sinc_types] (recorded finding F8)", "ratio k/32 (D_grid)")
+_c14("c14_witness", "must FAIL (vacuity witness)", "none", witness=True)
+
+# ---------------------------------------------------------------- recorded-finding regions and constructor-ratio harnesses
+HARNESSES["c03_ffi_big_jump"] = H("c03x", ["C03", "C04"], cap=900, mem=6, sym="new ratio k/8 in [0.2, 8] (span of reciprocals >= 3 frames); ramp",
+    bounds="FastFixedIn<f64> Nearest chunk 2, range [1/8, 8]: 6 calls at 1/8, then setter + 1 call; region [recip_span_ge3] (recorded finding F5)")
+HARNESSES["c03_ffi_big_jump"]["untagged_region"] = "recip_span_ge3"
+HARNESSES["c10_sfo_ctor_ratio"] = H("c03x", ["C10", "C04"], cap=1200, mem=6, untagged="C10", sym="CONSTRUCTOR ratio: every f64 in [0.5, 2]",
+    bounds="SincFixedOut<f64>+Probe(2,1) chunk 2: getters of a fresh instance vs after reset() (no processing call; allocation sizes are symbolic)")
+HARNESSES["c10_ffo_ctor_ratio"] = H("c03x", ["C10", "C04"], cap=1200, mem=6, untagged="C10", sym="CONSTRUCTOR ratio: every f64 in [0.5, 2]",
+    bounds="FastFixedOut<f64> chunk 2: getters fresh vs after reset()")
